@@ -39,7 +39,40 @@ def _over(msg, limit):
     return len(msg[1]) > limit
 
 
+def _gen_big_send(rng, tier):
+    """WebSocket over HTTP/2, a message of the application larger than the client's window: its frame is written piece by piece as credit
+    comes, and a control frame in between (the pong for a ping of the client's) must not land inside it."""
+    for k in range(6 if tier == "quick" else 120):
+        i = 7700000 + k
+        size = rng.choice([70000, 100000, 180000])
+        fb = FrameBuilder()
+        rspec = {"kind": "h2", "credit": "none"}
+        hdrs = [(b":method", b"CONNECT"), (b":protocol", b"websocket"), (b":scheme", b"http"), (b":path", b"/t%d" % i),
+                (b":authority", b"h.example"), (b"sec-websocket-version", b"13")]
+        payload = bytes((i * 7 + j * 13) % 251 for j in range(size))
+        script = [["recv"], ["send", {"type": "websocket.accept"}], ["recv"], ["send", {"type": "websocket.send", "bytes": payload}], ["ws_echo"]]
+        need = size + 1000
+        client = [["feed", client_preface(fb, rspec) + fb.headers(1, hdrs, end_stream=False)], ["settle"],
+                  ["feed", fb.data(1, ws.message_frames(ws.OP_TEXT, b"go"))], ["settle"],
+                  ["feed", fb.data(1, ws.frame(ws.OP_PING, b"mid"))], ["settle"]]
+        for _ in range(rng.choice([1, 3])):
+            client += [["react", "window_update", 1, need], ["react", "window_update", 0, need], ["settle"]]
+        client += [["feed", fb.data(1, ws.message_frames(ws.OP_TEXT, b"after"))], ["settle"], ["feed", fb.data(1, ws.close_frame(1000))], ["settle"]]
+        yield {"family": "h2.big-send-with-ping", "backends": ["asyncio", "trio"], "config": {"keep_alive_timeout": 5000, "websocket_max_message_size": 1 << 20}, "conn": {},
+               "apps": {"default": script, "websocket": script}, "client": client, "reactor": rspec,
+               "truth": {"kind": "big-send", "carrier": "h2", "payload_len": size, "payload_sha": _sha(payload), "msgs": [], "limit": 1 << 20, "pings": [(0, b"mid")],
+                         "deflate": False, "inner_ping": [], "server_pings": False},
+               "sched": {"seed": rng.randrange(1 << 30)}, "horizon": 100.0}
+
+
+def _sha(b):
+    import hashlib
+
+    return hashlib.sha1(b).hexdigest()
+
+
 def gen(rng, tier):
+    yield from _gen_big_send(rng, tier)
     for i in range(N_CASES[tier]):
         limit = rng.choice([1, 16, 1024, 65536, 65536])
         nmsg = rng.choice([1, 2, 3, 5, 12])
@@ -199,6 +232,16 @@ def check(case, obs, tally):
     accepted, parser = _server_side(case, obs)
     if not accepted or parser is None:
         tally.inconclusive["not-accepted"] += 1
+        return out
+    if t.get("kind") == "big-send":
+        tally.clause("echo")
+        got = [(k_, (len(v), _sha(v)) if k_ == "bytes" else v) for k_, v in parser.messages]
+        want = [("bytes", (t["payload_len"], t["payload_sha"])), ("text", "after")]
+        if got != want or parser.errors or b"mid" not in [bytes(x) for x in parser.pongs]:
+            out.append({"clause": "echo", "sig": "C10.sent/h2/message-interleaved-with-control-frame",
+                        "detail": "the application sent one binary message of %d bytes (larger than the window) and echoed 'after'; a ping arrived while it was being "
+                                  "written: the client parsed messages %r, pongs %r, errors %r, close %r" % (
+                                      t["payload_len"], [(k_, v if k_ == "text" else v[0]) for k_, v in got], parser.pongs[:3], parser.errors[:2], parser.close)})
         return out
     carrier = t["carrier"]
     limit = t["limit"]
